@@ -21,13 +21,17 @@ def data(cplx=True, n=None, phase=True, label='x', second=False):
     else:
         d['s'] = F(1)
         d['g'] = F(1) if (cplx and phase) else F(0)
-    return Num(d, (n if n is not None else N_SYM,), cplx, taint=frozenset([label]))
+    r = Num(d, (n if n is not None else N_SYM,), cplx, taint=frozenset([label]))
+    from .charge import lin
+    r.q = lin(1, Aff(0)) if cplx else Aff(0)
+    return r
 
 
 def sampling():
     d = zero_deg()
     d['hz'] = F(1)
     r = Num(d, (), False, taint=frozenset(['sampling']), nonneg=True)
+    r.q = Aff(0)
     return r
 
 
@@ -57,7 +61,9 @@ def symint(name, minimum=1, label=None):
 
 
 def deg0(shape=(), cplx=False, label=None):
-    return Num(zero_deg(), shape, cplx, taint=frozenset([label]) if label else frozenset())
+    r = Num(zero_deg(), shape, cplx, taint=frozenset([label]) if label else frozenset())
+    r.q = Aff(0)
+    return r
 
 
 # ----------------------------------------------------------------------------- summaries
@@ -70,6 +76,7 @@ def window_summary(itp, args, kwargs, node, st):
     d['win'] = F(1)
     arr = Num(d, (_int_aff(n),), False, taint=taint_of(n) | taint_of(name) | frozenset(['window']))
     arr.role = 'window'
+    arr.q = Aff(0)
     o = Opaque('window:', arr.taint)
     o.data = arr
     o.args = (n, name, kwargs)
@@ -115,11 +122,11 @@ SUMMARIES = {
 }
 
 
-def new_interp(prog, loop_taint=True, summaries=None):
+def new_interp(prog, loop_taint=True, summaries=None, d4=False):
     s = dict(SUMMARIES)
     if summaries:
         s.update(summaries)
-    return Interp(prog, loop_taint=loop_taint, summaries=s)
+    return Interp(prog, loop_taint=loop_taint, summaries=s, d4=d4)
 
 
 def run_function(prog, mod, fname, args, kwargs=None, itp=None, **ikw):
